@@ -53,7 +53,7 @@ def fixture():
     base = pathlib.Path(tempfile.mkdtemp(prefix='c19fix_', dir=scratch_root()))
     from pbt.core import remove_at_exit
     remove_at_exit(base)
-    rs = {'tree': TREE, 'n_genes': 20, 'cells_per': 10, 'seed': 17, 'dtype': 'int32', 'enc': 'csr', 'shuffle': True,
+    rs = {'tree': TREE, 'n_genes': 20, 'cells_per': 10, 'seed': 17, 'dtype': 'int32', 'enc': 'csc', 'shuffle': True,
           'family': 'nested'}
     pipeline.write_ref_h5ad(base / 'ref.h5ad', rs)
     tmp = base / 'tmp'
@@ -344,7 +344,12 @@ class History(RuleBasedStateMachine):
         work = self.out / f'd{self.step}'
         work.mkdir()
         res, err = mapping.run_direct(work, paths, spec, buffer_dir=shared)
+        import gc
+        gc.collect()      # the library removes the CSR copy of a CSC query when its iterator object is released
+        left_tmp = sorted(listing(work / 'direct_tmp')) if (work / 'direct_tmp').exists() else []
         shutil.rmtree(work, ignore_errors=True)
+        if err is None and left_tmp:
+            self._fail('scratch_not_empty_after_return', {'after': what, 'left_behind': left_tmp[:6]})
         if err is not None:
             self._fail('successful_run_raised', {'step': what, 'error': f'{type(err).__name__}: {str(err)[:300]}'})
         got = json.loads(json.dumps(res, default=lambda o: o.item() if hasattr(o, 'item') else str(o)))
